@@ -80,11 +80,11 @@ example :
     intro d hd
     refine ⟨⟨?_, ?_, ?_, ?_⟩, ?_, ?_⟩ <;> simp [natLit, fracDigits, Number.u32Max, hd]
   refine ⟨?_, ⟨lo 7 (by omega), lo 2 (by omega)⟩, lo 1 (by omega), lo 1 (by omega)⟩
-  refine .chain (x₀ := numTree 0 "7") rfl (n 0 "7" [7] (by decide)) ?_
+  refine .chain (x₀ := numTree 0 "7") rfl (by decide) (n 0 "7" [7] (by decide)) ?_
   refine .cons (op := .sub) rfl (n 5 "2" [2] (by decide)) ?_
   refine .cons (op := .sub) rfl ?_ (.nil _)
   refine .paren (x := .node 17 .OPERATION _) rfl ?_
-  refine .chain (x₀ := numTree 10 "1") rfl (n 10 "1" [1] (by decide)) ?_
+  refine .chain (x₀ := numTree 10 "1") rfl (by decide) (n 10 "1" [1] (by decide)) ?_
   exact .cons (op := .add) rfl (n 15 "1" [1] (by decide)) (.nil _)
 
 /-! ## Stage B — precedence climbing at the level of the specification -/
